@@ -365,7 +365,7 @@ Print Assumptions C17_window_examples.
    the three _explicit theorems). *)
 From S4.Base Require Chunk.
 From S4.Model Require Lines Caches RetainCaches.
-From S4.Proofs Require CachesProofs RetainKeepsUp RetainNoErr RetainFar RetainFarFifo RetainFarConv RetainFarExact RetainFarLayout RetainCachesAgree RetainCachesLayout.
+From S4.Proofs Require CachesProofs RetainKeepsUp RetainNoErr RetainFar RetainFarFifo RetainFarConv RetainFarExact RetainFarLayout RetainNoEdge RetainCachesAgree RetainCachesLayout.
 
 (* what "agree" says: the five counters of summary() equal the five marks, the three stores have
    the same sizes, and no release failed *)
@@ -669,6 +669,54 @@ Theorem C17_far_bounded_layout : forall bs layout c lag, pol c = P_cur -> layout
   derr s = 0 /\ hs s <= bound_syslines bs (max_span ms) /\ hl s <= bound_lines bs (max_span ms) (max_lines ms) lag.
 Proof. exact RetainFarLayout.layout_far_bounded. Qed.
 Print Assumptions C17_far_bounded_layout.
+
+(* THE BLOCKS: the two policies release different blocks only through lines whose last byte is the last
+   byte of a block (finding F9b).  When no line of the file is such a line, a run of the current policy
+   without a failed release IS the run of the repaired policy — the whole state, blocks and blocks high
+   included, every schedule *)
+Theorem C17_no_edge_explicit : forall ms, RetainNoEdge.no_edge ms <->
+  forall m l, In m ms -> In l (mlines m) -> ledge l = false.
+Proof. exact (fun ms => iff_refl _). Qed.
+Print Assumptions C17_no_edge_explicit.
+
+Theorem C17_cur_is_retry_without_err_no_edge : forall cc cr ms evs, pol cc = P_cur -> pol cr = P_retry ->
+  streamed cr = streamed cc -> RetainNoEdge.no_edge ms -> derr (run cc (init ms) evs) = 0 ->
+  run cc (init ms) evs = run cr (init ms) evs.
+Proof. exact RetainNoEdge.cur_is_retry_without_err_no_edge. Qed.
+Print Assumptions C17_cur_is_retry_without_err_no_edge.
+
+(* OUTSIDE THE RECORDED CLASSES THE PROPERTY HOLDS FOR THE CURRENT POLICY: not F9a (far), not F9b (no_edge),
+   a year in the notation (the model's streaming run), every first-in-first-out consumer within the bound:
+   no release fails and all three marks obey bounds that do not depend on the number of messages *)
+Theorem C17_cur_outside_classes_bounded : forall bs span ml lag ms c evs, pol c = P_cur -> wf bs span ml ms -> 1 <= lag ->
+  map mkey ms = nseq 0 (length ms) -> RetainFar.far lag ms -> RetainNoEdge.no_edge ms -> RetainFarFifo.fifo evs ->
+  sched_ok lag c (init ms) evs = true ->
+  let s := run c (init ms) evs in
+  derr s = 0 /\ hs s <= bound_syslines bs span /\ hl s <= bound_lines bs span ml lag /\
+  hb s <= bound_blocks bs span lag.
+Proof. exact RetainFarLayout.cur_outside_classes_bounded. Qed.
+Print Assumptions C17_cur_outside_classes_bounded.
+
+Theorem C17_layout_outside_classes_bounded : forall bs layout c lag evs, pol c = P_cur -> layout_ok bs layout -> 1 <= lag ->
+  let ms := layout_msgs bs layout in
+  RetainFar.farb lag ms = true -> RetainNoEdge.no_edgeb ms = true -> RetainFarFifo.fifo evs ->
+  sched_ok lag c (init ms) evs = true ->
+  let s := run c (init ms) evs in
+  derr s = 0 /\ hs s <= bound_syslines bs (max_span ms) /\ hl s <= bound_lines bs (max_span ms) (max_lines ms) lag /\
+  hb s <= bound_blocks bs (max_span ms) lag.
+Proof. exact RetainFarLayout.layout_outside_classes_bounded. Qed.
+Print Assumptions C17_layout_outside_classes_bounded.
+
+Theorem C17_no_edge_example :
+  let ms := layout_msgs 512 RetainNoEdge.no_edge_layout in
+  let n := length ms in
+  RetainNoEdge.no_edgeb ms = true /\ RetainNoEdge.no_edgeb (layout_msgs 512 RetainNoErr.far_layout) = false /\
+  RetainFar.farb 7 ms = true /\
+  derr (run cur_plain (init ms) (sched_lag 7 n)) = 0 /\
+  marks (run cur_plain (init ms) (sched_lag 7 n)) = marks (run retry_plain (init ms) (sched_lag 7 n)) /\
+  hb (run cur_plain (init ms) (sched_lag 7 n)) <= bound_blocks 512 (max_span ms) 7.
+Proof. vm_compute. repeat split; try reflexivity; discriminate. Qed.
+Print Assumptions C17_no_edge_example.
 
 Theorem C17_keeps_up_example :
   let ms := layout_msgs 64 ex_layout in
